@@ -1,29 +1,13 @@
 """Contracts for pynetdicom2/statuses.py (C18; Status.is_pending is used by C16/C19)."""
 from pyvc.contracts import contract
 
-# ---------------------------------------------------------------- add_status
-# Abstract effect: a *range update* of one of the two module dictionaries.  The real body is
-# verified to refine it (loop invariants below); callers -- in particular the module's own
-# register_statuses() at import -- see only this effect.
-c = contract('statuses.add_status')
-c.prop('C18')
-c.abstract = '''
-status = s(code_type, description)
-hi = code if end is None else end
-if command is None:
-    dict_range_update(_general_status_dict, (), code, hi, status)
-else:
-    dict_range_update(_status_dict, (command.command_field,), code, hi, status)
-'''
-# the refinement obligation itself is stated in pyvc/props/c18.py (two runs from one pre-state);
-# loops: ordinal 0 = general dictionary, ordinal 1 = command-specific dictionary
-for ordinal, dname, prefix in ((0, '_general_status_dict', '()'),
-                               (1, '_status_dict', '(command.command_field,)')):
-    ls = c.loop('', ordinal)
-    ls.havoc = {dname: ('assign_dict', 'range_updated(_old_%s, %s, code, _pos - 1, status)' % (dname, prefix))}
-    ls.invariants = [('range-updated',
-                      'dict_equiv(%s, range_updated(_old_%s, %s, code, _pos - 1, status), _probe_key)'
-                      % (dname, dname, prefix))]
+# ---------------------------------------------------------------- add_status / register_statuses
+# No contract: both are *executed* from the AST when the module is loaded (register_statuses()
+# over the real KNOWN_STATUSES literal).  The two fill loops of add_status,
+#     for _code in code_range: D[(K, _code)] = status
+# are summarised by the engine's loop rule "dictionary fill over a range == one range binding"
+# (pyvc/interp.py _accelerate_dict_fill), so the tables stay compact; whatever key expression K
+# the code uses is evaluated as written.
 
 # ---------------------------------------------------------------- Status
 c = contract('statuses.Status.__init__')
